@@ -1,6 +1,7 @@
 import Litep2pVerif.Proofs.Addr.Reach
 import Litep2pVerif.Proofs.Addr.Listener
 import Litep2pVerif.Generated.Consts
+import Litep2pVerif.Proofs.Manager.Basic
 /-!
 # C10 — Peer address book stays bounded, attributable and dialable
 
@@ -619,3 +620,87 @@ open Litep2pVerif.Props.C10 in
 #print axioms public_addresses_name_local
 open Litep2pVerif.Props.C10 in
 #print axioms handle_dial_guarded
+
+/-! ## Manager level — a dial failure is scored in EVERY peer state (coverage round `mgr2`)
+
+Over the connection-manager model `Model/Manager/Dial.lean` (the operational copy of
+`src/transport/manager/mod.rs` that C05/C06 use; its `PeerState` is the full machine: `Connected` with a
+secondary connection or a parked dial record, `Disconnected` with a dial record, `Opening`, `Dialing`).
+It is tied to the real `TransportManager` by the c05 area; C10's check runs manager-level histories there with
+the address store printed around every dial outcome. -/
+namespace Litep2pVerif.Props.C10.Manager
+open Litep2pVerif Litep2pVerif.Manager
+
+/-- **A dial failure re-scores exactly the address used, whatever state the peer is in.** For EVERY
+manager state `s` (no reachability assumption: every `PeerState` of every peer, every pending table —
+in particular `Connected` with the failed dial parked as secondary record, i.e. the remote's own
+connection won the simultaneous-dial race), every connection id and every failed address `a` ending in
+`/p2p/p`: after `TransportEvent::DialFailure { a, e }` the address book of `p` is the old one with `a`
+scored `error_score(e)` (`AddressStore::insert` of a non-zero score: an existing record takes the score,
+a new one is added), every record of another address is as before, and no other peer's book changes. -/
+theorem dial_failure_rescored_in_every_state (s : Mgr) (c : ConnId) (a : Multiaddr) (e : DialErr) (p : Peer)
+    (hp : lastPeer a = some p) :
+    let s' := (onDialFailure s c a e).1
+    (s'.peers p).addresses = storeInsert (s.peers p).addresses a (errorScore e) ∧
+    (∀ r ∈ (s.peers p).addresses, r.addr = a →
+      (⟨a, errorScore e⟩ : AddrRec) ∈ (s'.peers p).addresses ∧
+      ∀ r' ∈ (s'.peers p).addresses, r'.addr = a → r'.score = errorScore e) ∧
+    (∀ r ∈ (s.peers p).addresses, r.addr ≠ a → r ∈ (s'.peers p).addresses) ∧
+    (∀ q, q ≠ p → (s'.peers q).addresses = (s.peers q).addresses) := by
+  have hne : errorScore e ≠ 0 := by cases e <;> decide
+  have hbook : ∀ q, (((onDialFailure s c a e).1).peers q).addresses =
+      if q = p then storeInsert (s.peers p).addresses a (errorScore e) else (s.peers q).addresses := by
+    intro q
+    unfold onDialFailure
+    split
+    · simp only [updAddrFail, hp, updAddr]; split <;> simp_all
+    · simp only [updAddrFail, hp, updAddr, setState]
+      split <;> split <;> simp_all
+  intro s'
+  have hp' : (s'.peers p).addresses = storeInsert (s.peers p).addresses a (errorScore e) := by
+    show (((onDialFailure s c a e).1).peers p).addresses = _
+    rw [hbook p, if_pos rfl]
+  refine ⟨hp', ?_, ?_, ?_⟩
+  · intro r hr hra
+    have hany : (s.peers p).addresses.any (fun x => x.addr == a) = true :=
+      List.any_eq_true.2 ⟨r, hr, by simp [hra]⟩
+    rw [hp']
+    unfold storeInsert
+    rw [if_pos hany, if_pos hne]
+    refine ⟨List.mem_map.2 ⟨r, hr, by simp [hra]⟩, ?_⟩
+    intro r' hr' hra'
+    obtain ⟨x, _, hx⟩ := List.mem_map.1 hr'
+    by_cases hxa : x.addr = a
+    · rw [if_pos hxa] at hx; rw [← hx]
+    · rw [if_neg hxa] at hx; rw [← hx] at hra'; exact absurd hra' hxa
+  · intro r hr hra
+    rw [hp']
+    unfold storeInsert
+    by_cases hany : (s.peers p).addresses.any (fun x => x.addr == a) = true
+    · rw [if_pos hany, if_pos hne]
+      exact List.mem_map.2 ⟨r, hr, by simp [hra]⟩
+    · rw [if_neg hany]
+      exact List.mem_append_left _ hr
+  · intro q hq
+    show (((onDialFailure s c a e).1).peers q).addresses = _
+    rw [hbook q, if_neg hq]
+
+/-- Non-vacuity: the simultaneous-dial race. `dial_address(A)` for peer 1 is in flight, peer 1's own inbound
+connection is established (state `Connected` with the dial parked as secondary record), then the dial fails with
+a timeout: `A` goes from 0 to `CONNECTION_FAILURE`; the peer stays connected through the inbound connection. The
+same failure with an address error scores `ADDRESS_FAILURE`; a second, known address keeps its score. -/
+example :
+    let A : Multiaddr := [.ip4 11, .tcp 1001, .p2p 1]
+    let B : Multiaddr := [.ip4 12, .tcp 1002, .p2p 1]
+    let g := runG (G.init ⟨none, none⟩)
+      [.addKnown 1 [B], .dialAddress A, .alloc, .evEstablished 1 ⟨true, [.ip4 51, .tcp 4000], 1⟩ true]
+    stateOf g.m 1 = .connected ⟨[.ip4 51, .tcp 4000, .p2p 1], 1⟩ (some (.dialing ⟨A, 0⟩)) ∧
+    (g.m.peers 1).addresses = [⟨B, 0⟩, ⟨A, 0⟩] ∧
+    ((onDialFailure g.m 0 A .timeout).1.peers 1).addresses = [⟨B, 0⟩, ⟨A, -100⟩] ∧
+    ((onDialFailure g.m 0 A .address).1.peers 1).addresses = [⟨B, 0⟩, ⟨A, -2147483648⟩] ∧
+    stateOf (onDialFailure g.m 0 A .timeout).1 1 = .connected ⟨[.ip4 51, .tcp 4000, .p2p 1], 1⟩ none := by
+  decide
+
+end Litep2pVerif.Props.C10.Manager
+
+#print axioms Litep2pVerif.Props.C10.Manager.dial_failure_rescored_in_every_state
